@@ -11,20 +11,25 @@ Open Scope Z_scope.
 (* ------------------------------------------------------------------ *)
 (* C14: coordinates                                                     *)
 (* ------------------------------------------------------------------ *)
-Lemma ec_coord_in_range v size :
-  0 <= size -> 0 <= v < 256 ^ size -> ec_coord v size = be_enc (Z.to_nat size) v.
-Proof.
-  intros Hs Hv. unfold ec_coord.
-  destruct (v <? 0) eqn:E1; [lia|]. destruct (256 ^ size <=? v) eqn:E2; [lia|]. reflexivity.
-Qed.
+Lemma pow256 n : 0 <= n -> 256 ^ n = 2 ^ (8 * n).
+Proof. intros H. rewrite Z.pow_mul_r by lia. reflexivity. Qed.
 
-(* every coordinate of a valid point is serialised on exactly the field size and denotes the same integer *)
-Theorem ec_coord_full_width v size :
-  0 <= size -> 0 <= v < 256 ^ size ->
-  len (ec_coord v size) = size /\ bytes_ok (ec_coord v size) = true /\ be_dec (ec_coord v size) = v.
+(* big.Int.Bytes(): minimal big-endian bytes *)
+Lemma zbytes_spec d : 0 < d ->
+  bytes_ok (zbytes d) = true /\ be_dec (zbytes d) = d /\ 0 < len (zbytes d) /\
+  (forall n, 0 <= n -> d < 256 ^ n -> len (zbytes d) <= n).
 Proof.
-  intros Hs Hv. rewrite ec_coord_in_range by auto. unfold len. rewrite be_enc_length, be_enc_ok.
-  split; [lia|]. split; auto. apply be_dec_enc. rewrite Z2Nat.id; auto.
+  intros Hd. unfold zbytes. destruct (d <=? 0) eqn:E; [lia|].
+  pose proof (Z.log2_nonneg d) as Hl.
+  assert (Hk : 0 <= Z.log2 d / 8) by (apply Z.div_pos; lia).
+  split; [apply be_enc_ok|]. split; [|split].
+  - apply be_dec_enc. rewrite Z2Nat.id by lia. split; [lia|].
+    rewrite pow256 by lia. apply Z.log2_lt_pow2; [lia|].
+    pose proof (Z.mod_pos_bound (Z.log2 d) 8 ltac:(lia)). pose proof (Z.div_mod (Z.log2 d) 8 ltac:(lia)). lia.
+  - unfold len. rewrite be_enc_length, Z2Nat.id by lia. lia.
+  - intros n Hn Hlt. unfold len. rewrite be_enc_length, Z2Nat.id by lia.
+    rewrite pow256 in Hlt by lia. apply Z.log2_lt_pow2 in Hlt; [|lia].
+    pose proof (Z.mod_pos_bound (Z.log2 d) 8 ltac:(lia)). pose proof (Z.div_mod (Z.log2 d) 8 ltac:(lia)). lia.
 Qed.
 
 Lemma be_dec_acc_zeros n l acc : be_dec_acc (repeat 0 n ++ l) acc = be_dec_acc l (acc * 256 ^ Z.of_nat n).
@@ -42,6 +47,21 @@ Proof.
   intros H. unfold pad_to. split.
   - rewrite len_app. unfold len at 1. rewrite repeat_length. pose proof (len_nonneg b). lia.
   - unfold be_dec. rewrite be_dec_acc_zeros. reflexivity.
+Qed.
+
+(* the constructors keep big.Int.Bytes() (minimal length) except for the value 0, which is stored as `size` zero
+   octets; in every case the stored coordinate is non-empty, fits the field size and denotes the same integer *)
+Theorem ec_coord_spec v size :
+  0 < size -> 0 <= v < 256 ^ size ->
+  0 < len (ec_coord v size) <= size /\ bytes_ok (ec_coord v size) = true /\ be_dec (ec_coord v size) = v.
+Proof.
+  intros Hs Hv. unfold ec_coord. destruct (v =? 0) eqn:E.
+  - apply Z.eqb_eq in E. subst v. unfold len. rewrite repeat_length, Z2Nat.id by lia.
+    split; [lia|]. split.
+    + clear. induction (Z.to_nat size); cbn; auto.
+    + unfold be_dec. rewrite <- (app_nil_r (repeat 0 _)), be_dec_acc_zeros. reflexivity.
+  - apply Z.eqb_neq in E. replace (Z.abs v) with v by lia.
+    destruct (zbytes_spec v ltac:(lia)) as (Ho & Hd & Hp & Hb). specialize (Hb size ltac:(lia) ltac:(lia)). auto.
 Qed.
 
 (* the field sizes come from the translated table *)
@@ -64,7 +84,7 @@ Definition ec2_public_key (crv alg : Z) (cx cy : bytes) : key :=
                opt_entry c_KeyLabelEC2Y (Some cy) ++ opt_entry c_KeyLabelEC2D None)).
 
 Lemma ec2_public_key_converts crv alg bits cx cy :
-  curve_triple crv alg bits -> len cx = field_size bits -> len cy = field_size bits ->
+  curve_triple crv alg bits -> 0 < len cx <= field_size bits -> 0 < len cy <= field_size bits ->
   key_validate (ec2_public_key crv alg cx cy) 0 = Acc tt /\
   key_public (ec2_public_key crv alg cx cy) = Acc (PubEC bits (be_dec cx) (be_dec cy)) /\
   key_x (ec2_public_key crv alg cx cy) = Some cx /\ key_y (ec2_public_key crv alg cx cy) = Some cy.
@@ -72,26 +92,32 @@ Proof.
   intros Ht Hx Hy.
   assert (V : forall op, op = 0 \/ op = c_KeyOpVerify -> key_validate (ec2_public_key crv alg cx cy) op = Acc tt).
   { intros op Hop. destruct Ht as [(-> & -> & ->)|[(-> & -> & ->)|(-> & -> & ->)]]; destruct Hop as [-> | ->];
+    change (field_size 256) with 32 in *; change (field_size 384) with 48 in *; change (field_size 521) with 66 in *;
     unfold key_validate, ec2_public_key, key_crv, key_x, key_y, key_d, param_int, param_bytes, decode_int, decode_bytes, kparams;
-    cbn; rewrite Hx, Hy; reflexivity. }
+    cbn;
+    repeat match goal with
+           | |- context [?a <? ?b] => destruct (Z.ltb_spec a b); try lia
+           | |- context [?a =? ?b] => destruct (Z.eqb_spec a b); try lia
+           end; cbn; reflexivity. }
   split; [apply V; auto|]. split; [|split; reflexivity].
   unfold key_public. rewrite V by auto. cbn [bind].
   destruct Ht as [(-> & -> & ->)|[(-> & -> & ->)|(-> & -> & ->)]]; reflexivity.
 Qed.
 
-(* converting a Go public key to a COSE_Key and back gives the same key, and the
-   stored coordinates have exactly the curve's field size *)
+(* converting a Go public key to a COSE_Key and back gives the same key; the stored
+   coordinates are non-empty, fit the field size and denote the same integers
+   (MarshalCBOR pads them to exactly the field size: pad_to_spec, KeyCbor.v) *)
 Theorem public_key_roundtrip crv alg bits x y :
   curve_triple crv alg bits ->
   0 <= x < 256 ^ field_size bits -> 0 <= y < 256 ^ field_size bits ->
   exists k, new_key_from_public (PubEC bits x y) = Acc k /\ key_public k = Acc (PubEC bits x y) /\
             (exists cx cy, key_x k = Some cx /\ key_y k = Some cy /\
-                           len cx = field_size bits /\ len cy = field_size bits /\ be_dec cx = x /\ be_dec cy = y).
+                           0 < len cx <= field_size bits /\ 0 < len cy <= field_size bits /\ be_dec cx = x /\ be_dec cy = y).
 Proof.
   intros Ht Hx Hy.
-  assert (Hs : 0 <= field_size bits) by (destruct Ht as [(_ & _ & ->)|[(_ & _ & ->)|(_ & _ & ->)]]; cbv; discriminate).
-  destruct (ec_coord_full_width x _ Hs Hx) as (Lx & _ & Dx).
-  destruct (ec_coord_full_width y _ Hs Hy) as (Ly & _ & Dy).
+  assert (Hs : 0 < field_size bits) by (destruct Ht as [(_ & _ & ->)|[(_ & _ & ->)|(_ & _ & ->)]]; reflexivity).
+  destruct (ec_coord_spec x _ Hs Hx) as (Lx & _ & Dx).
+  destruct (ec_coord_spec y _ Hs Hy) as (Ly & _ & Dy).
   destruct (ec2_public_key_converts crv alg bits _ _ Ht Lx Ly) as (V & P & Kx & Ky).
   exists (ec2_public_key crv alg (ec_coord x (field_size bits)) (ec_coord y (field_size bits))).
   split.
@@ -104,7 +130,7 @@ Proof.
     unfold new_key_ec2. rewrite A2. fold (ec2_public_key crv alg (ec_coord x (field_size bits)) (ec_coord y (field_size bits))).
     rewrite V. reflexivity.
   - split; [rewrite P, Dx, Dy; reflexivity|].
-    eexists _, _. repeat split; eauto.
+    eexists _, _. repeat split; eauto; lia.
 Qed.
 
 (* ------------------------------------------------------------------ *)
